@@ -12,6 +12,7 @@ import LdpcV.Driver.C13
 import LdpcV.Driver.C12
 import LdpcV.Driver.C16
 import LdpcV.Driver.C19
+import LdpcV.Driver.C20
 open LdpcV
 
 def dispatch (line : String) : String :=
@@ -38,6 +39,7 @@ def dispatch (line : String) : String :=
   | "c12" :: rest => Driver.C12.handle rest out
   | "c16" :: rest => Driver.C16.handle rest out
   | "c19" :: rest => Driver.C19.handle rest out
+  | "c20" :: rest => Driver.C20.handle rest out
   | _ => "BADLINE unknown-tag"
 
 partial def loop (h : IO.FS.Stream) (o : IO.FS.Stream) : IO Unit := do
